@@ -13,7 +13,7 @@ E2 = True
 for _c, _a in ((P.Project, "check"), (P.Project, "repair"), (P.Project, "_get_statepoint_from_workspace"), (P.Project, "_get_statepoint"), (J._StatePointDict, "load"), (J.Job, "init")):
     spy(_c, _a, f"{_c.__module__}.{_c.__qualname__}.{_a}")
 CODE = ["signac.project.Project.check / repair / _get_statepoint_from_workspace / _get_statepoint / open_job(id=)", "signac.job._StatePointDict.load / save", "signac.job.Job.init(force=)"]
-BOUNDS = {"project": "3 jobs: flat {a:1}, nested {a:{b:[1,2.5,'x']},c:null}, non-ASCII keys/values (\\u escapes in the file); each with a document and a data file",
+BOUNDS = {"project, second universe": "the empty state point {}, {a:0}, {a:false, n:{}} (h_damage_falsy)", "project": "3 jobs: flat {a:1}, nested {a:{b:[1,2.5,'x']},c:null}, non-ASCII keys/values (\\u escapes in the file); each with a document and a data file",
           "damage": "truncation at EVERY offset 0..len; single-byte replacement at every offset by a representative of 9 byte classes (digit, letter, quote, closing brace, opening bracket, comma, colon, space, 0x80, newline); "
                     "deletion; replacement by another job's file; by other valid JSON ([], 1, {}, null); by an ==-equal but JSON-different state point (1 -> 1.0, 1 -> true); renaming the directory to an unused id",
           "victims": "any non-empty subset of the 3 jobs (same damage kind, offsets derived per file)", "cache": "persistent cache absent / exact"}
@@ -262,8 +262,32 @@ def h_damage__reach(victims: int, kind: int, off: int, cls: int, with_cache: boo
     assert not (harmless and kind == 1)  # twin: a single-byte change that does NOT damage the job (whitespace) is reachable
 
 
+# a second universe: the EMPTY state point and falsy values (whatever tests truthiness instead of presence trips here)
+SPS_ALT = [{}, {"a": 0}, {"a": False, "n": {}}]
+EQUAL_DIFFERENT_ALT = [b" {}", b'{"a": 0.0}', b'{"a": 0, "n": {}}']
+
+
+def h_damage_falsy(victims: int, kind: int, off: int, cls: int, with_cache: bool, do_repair: bool):
+    assert 1 <= victims <= 7 and 0 <= kind < NKIND and 0 <= off <= 24 and 0 <= cls < 10 and part_ok(off)
+    assert (kind <= 1 or off == 0) and (kind in (1, 3, 4) or cls == 0) and (kind != 3 or cls < 2) and (kind != 4 or cls < 5)
+    assert victims in (1, 2, 4, 7) and (tier() != "quick" or kind != 1 or cls in (0, 3, 8))
+    fresh_path()
+    victims, kind, off, cls, with_cache, do_repair = ci(victims, 1, 7), ci(kind, 0, NKIND - 1), ci(off, 0, 24), ci(cls, 0, 9), cb(with_cache), cb(do_repair)
+    with nt():
+        g = globals()
+        keep = g["SPS"], g["EQUAL_DIFFERENT"]
+        g["SPS"], g["EQUAL_DIFFERENT"] = SPS_ALT, EQUAL_DIFFERENT_ALT
+        try:
+            r = _case(victims, kind, off, cls, with_cache, do_repair)
+        finally:
+            g["SPS"], g["EQUAL_DIFFERENT"] = keep
+    reached()
+    assert r[0]
+
+
 HARNESSES = [
     dict(name="h_damage", twin="h_damage__reach", timeout=(900, 3000), parts=(16, 16)),
+    dict(name="h_damage_falsy", timeout=(900, 3000), parts=(8, 8)),
 ]
 
 
